@@ -24,8 +24,8 @@ def nontrivial(r):
 def run(ctx):
     repo_lib.model_check(ctx,
                          [(ctx.q("MC_Repo_quick", "MC_Repo"), ctx.q(6, 10), ctx.q(900, 3000))],
-                         [("MC_Repo_neg_nobm", "InvC11"), ("MC_Repo_neg_nopred", "InvC11"),
-                          ("MC_Repo_finding", "InvC11")])
+                         [("MC_Repo_neg_nobm", "InvC11")] + ctx.q([], [("MC_Repo_neg_nopred", "InvC11")])
+                         + [("MC_Repo_finding", "InvC11")])
     ctx.cov["tlc_runs"][-1]["note"] = "MC_Repo_finding: with the guard against the known findings' shapes lifted TLC reproduces the finding on the model"
     repo_lib.simulate(ctx, ctx.q(60, 1500))
     repo_lib.record_and_judge(ctx, "C11", ctx.q(60, 1500), ctx.q(6, 8), is_mine, nontrivial)
